@@ -133,9 +133,10 @@ NoMask == [mode |-> "none", paths |-> {}]
 
 MaskVals == {Schema.values[i] : i \in 1..Len(Schema.values)}
 
-\* '*' in black-list mode: the statement says both that '*' "selects everything" and that black hides what a
-\* complete path covers; the two readings disagree, so such masks are kept out of the universe.
-HasStar(S) == \E a \in S : \E i \in 1..Len(Alphabet[a].p) : Alphabet[a].p[i].k = "*"
+\* a path ENDING in '*' in black-list mode: the statement says both that '*' "selects everything" and that black hides
+\* what a complete path covers; the two readings disagree, so such masks are kept out of the universe. A '*' in the
+\* middle of a path ($.ls[*].x) is unambiguous in both modes and stays in.
+HasStar(S) == \E a \in S : Alphabet[a].p[Len(Alphabet[a].p)].k = "*"
 MaskCases(S) == {[k |-> "mask", m |-> S, mode |-> mode, v |-> v] :
                    mode \in (IF HasStar(S) THEN {"white"} ELSE {"white", "black"}), v \in MaskVals}
 
